@@ -900,6 +900,29 @@ func TestVerifC16(t *testing.T) {
 			maxExec = 20000
 		}
 		st := vrt.Explore(vrt.ExploreOpts{RunOpts: opts, Bound: bound, MaxExec: maxExec, DeadlineUnix: rep.DeadlineUnix(), FreeCost: 1}, body)
+		if !st.Hung {
+			// the neighbourhood of the second canonical schedule (threads started later run first), one deviation
+			ropts := opts
+			ropts.ReverseOrder = true
+			st2 := vrt.Explore(vrt.ExploreOpts{RunOpts: ropts, Bound: 1, MaxExec: maxExec, DeadlineUnix: rep.DeadlineUnix(), FreeCost: 1}, body)
+			st.Executions += st2.Executions
+			st.Points += st2.Points
+			st.Hung = st2.Hung
+			for o, n := range st2.Outcomes {
+				st.Outcomes[o] += n
+			}
+			st.CapsHit = append(st.CapsHit, st2.CapsHit...)
+			have := map[string]bool{}
+			for _, f := range st.Failures {
+				have[f.Sig] = true
+			}
+			for _, f := range st2.Failures {
+				if !have[f.Sig] {
+					f.Sig2 = "reverse"
+					st.Failures = append(st.Failures, f)
+				}
+			}
+		}
 		rep.AddExecs(int64(st.Executions))
 		rep.AddStates(int64(st.Points))
 		rep.AddTrans(int64(st.Points))
@@ -939,7 +962,9 @@ func TestVerifC16(t *testing.T) {
 			}
 			okN := 0
 			for k := 0; k < 3; k++ {
-				x := vrt.Run(f.Choices, opts, body)
+				o := opts
+				o.ReverseOrder = f.Sig2 == "reverse"
+				x := vrt.Run(f.Choices, o, body)
 				for _, g := range x.Fails {
 					if g.Sig == f.Sig {
 						okN++
@@ -956,7 +981,7 @@ func TestVerifC16(t *testing.T) {
 				cfgName = ""
 			}
 			_ = cfgName
-			rep.Violate(clause, sig, f.Msg, map[string]any{"scenario": sc.name, "choices": f.Choices})
+			rep.Violate(clause, sig, f.Msg, map[string]any{"scenario": sc.name, "choices": f.Choices, "thread_order": vIf(f.Sig2 == "reverse", "descending", "ascending")})
 		}
 	}
 }
